@@ -672,3 +672,63 @@ pub fn synth_one(std: &ZkStdLib, l: &mut impl Layouter<F>, kind: Kind, v: &Value
         }
     }
 }
+
+// ---------------------------------------------------------------------------------------------
+// exposure of DERIVED emulated-field elements (results of lazy, un-normalised arithmetic)
+// ---------------------------------------------------------------------------------------------
+
+pub const DERIVED_OPS: [&str; 6] = ["add", "sub", "neg", "mul_by_constant(3)", "add;add;sub", "mul"];
+
+macro_rules! derived_with {
+    ($chip:expr, $K:ty, $variant:ident, $l:expr, $input:expr, $op:expr) => {{
+        type T = AssignedField<F, $K, MEP>;
+        let chip = $chip;
+        let a: T = chip.assign($l, $input.clone().map(|p| match p.0 { Val::$variant(x) => x, o => panic!("harness: kind mismatch {o:?}") }))?;
+        let b: T = chip.assign($l, $input.clone().map(|p| match p.1 { Val::$variant(x) => x, o => panic!("harness: kind mismatch {o:?}") }))?;
+        let z: T = match $op {
+            0 => chip.add($l, &a, &b)?,
+            1 => chip.sub($l, &a, &b)?,
+            2 => chip.neg($l, &a)?,
+            3 => chip.mul_by_constant($l, &a, <$K>::from(3u64))?,
+            4 => {
+                let t = chip.add($l, &a, &b)?;
+                let t = chip.add($l, &t, &a)?;
+                chip.sub($l, &t, &b)?
+            }
+            _ => chip.mul($l, &a, &b, None)?,
+        };
+        PublicInputInstructions::<F, T>::constrain_as_public_input(chip, $l, &z)
+    }};
+}
+
+/// Assigns two elements of an emulated field, combines them with operation `op` (index into
+/// `DERIVED_OPS`) and exposes the RESULT.
+pub fn synth_derived(std: &ZkStdLib, l: &mut impl Layouter<F>, kind: Kind, op: usize, input: &Value<(Val, Val)>) -> Result<(), Error> {
+    match kind {
+        Kind::SecpBase => derived_with!(std.secp256k1_curve().base_field_chip(), SecpFp, SecpBase, l, input, op),
+        Kind::SecpScalar => derived_with!(std.secp256k1_scalar(), SecpFq, SecpScalar, l, input, op),
+        Kind::BlsBase => derived_with!(std.bls12_381_curve().base_field_chip(), BlsFp, BlsBase, l, input, op),
+        _ => Err(Error::Synthesis("harness: derived exposure is for emulated fields".into())),
+    }
+}
+
+fn derived_k<K: CircuitField>(op: usize, a: K, b: K) -> K {
+    match op {
+        0 => a + b,
+        1 => a - b,
+        2 => -a,
+        3 => a * K::from(3u64),
+        4 => a + b + a - b,
+        _ => a * b,
+    }
+}
+
+/// the value the derived exposure must encode
+pub fn derived_value(op: usize, a: &Val, b: &Val) -> Option<Val> {
+    Some(match (a, b) {
+        (Val::SecpBase(a), Val::SecpBase(b)) => Val::SecpBase(derived_k(op, *a, *b)),
+        (Val::SecpScalar(a), Val::SecpScalar(b)) => Val::SecpScalar(derived_k(op, *a, *b)),
+        (Val::BlsBase(a), Val::BlsBase(b)) => Val::BlsBase(derived_k(op, *a, *b)),
+        _ => return None,
+    })
+}
